@@ -49,7 +49,7 @@ func virtualCheck(t *testing.T) {
 		for _, kind := range []string{"cancel", "deadline", "cancel-before-own-deadline"} {
 			for _, c := range []time.Duration{0, time.Millisecond, 50 * time.Millisecond} {
 				idx++
-				cs := map[string]any{"offset": off, "kind": kind, "at": c.String()}
+				cs := map[string]any{"offset": off, "kind": kind, "at": c.String(), "transport_writes_block": idx%2 == 0}
 				var elapsed time.Duration
 				var err error
 				done := false
@@ -64,6 +64,9 @@ func virtualCheck(t *testing.T) {
 			synctest.Test(t, func(t *testing.T) {
 						tc := tap.New(nil)
 						tc.Feed(hello[:off])
+						// every other cell: a synchronous transport (net.Pipe like) whose stalled peer does not read either,
+						// so that a Write - the alert - only ends at its write deadline
+						tc.BlockWrites = idx%2 == 0
 						var ctx context.Context
 						var cancel context.CancelFunc
 						if kind == "deadline" {
@@ -86,7 +89,7 @@ func virtualCheck(t *testing.T) {
 						synctest.Wait()
 					})
 				})
-				r.Eval(fmt.Sprintf("stall|%d|%s|%v", off, kind, c))
+				r.Eval(fmt.Sprintf("stall|%d|%s|%v|%v", off, kind, c, idx%2 == 0))
 				switch {
 				case deadlock != "" || !ok || !done:
 					r.Violate("virtual", idx, "blocked:newconn-did-not-return", "NewConn stayed blocked after its context ended ("+deadlock+")", cs)
